@@ -41,14 +41,16 @@ theorem C13_like_fresh_thread (w : Nat) (t : Thread) (b : Bytes)
 
 /-- regenerated obligation: both (re)initialisers replace the whole context by a freshly
     constructed one; natively exactly the interner is carried over, on Wasm nothing is, and the
-    constructor takes only the input bytes (everything else is `Default`) -/
+    constructor takes only the input bytes (everything else is `Default`); neither initialiser contains a
+    branch, an early exit or a loop, so the replacement is unconditional -/
 theorem C13_initialisers_rebuild_everything :
     nativeInitReplacesWhole = true ∧ nativeInitInPlace = [] ∧ nativeInitAssignedAfter = [] ∧
     nativeInitCarried = [[115, 116, 114, 105, 110, 103, 95, 105, 110, 116, 101, 114, 110, 101, 114]] ∧
     wasmInitReplacesWhole = true ∧ wasmInitInPlace = [] ∧ wasmInitCarried = [] ∧
     wasmInitAssignedAfter = [[105, 110, 112, 117, 116, 95, 98, 121, 116, 101, 115]] ∧
     contextNewSets = [[105, 110, 112, 117, 116, 95, 98, 121, 116, 101, 115]] ∧
-    contextNewRestDefault = true := by decide +kernel
+    contextNewRestDefault = true ∧
+    nativeInitHasBranches = false ∧ wasmInitHasBranches = false := by decide +kernel
 
 /-- the model's context has a component for every field of `provider::Context` -/
 theorem C13_context_fields :
